@@ -26,11 +26,14 @@ def _block(tag, payload):
     return data + b'\x00' * (-len(payload) % 8)
 
 
-def v3_file(threadmap, records, log_events=None, log_strings=None):
+V3_HEADER = (0x00001900, 0, 0, 125, 3, 0, 1700000000, 5, 0, 0, 0, 0)
+
+
+def v3_file(threadmap, records, log_events=None, log_strings=None, header_fields=V3_HEADER):
     """A minimal version-3 dump: header, stackshot end marker, thread map, one events chunk, then (optional)
     the log-events and log-strings property lists.  log_events: list of raw dicts; log_strings: list of str."""
     cpu_info = plistlib.dumps({'cpus': 1}, fmt=plistlib.FMT_BINARY)
-    header = struct.pack('<IIQIIQQIIIII', 0x00001900, 0, 0, 125, 3, 0, 1700000000, 5, 0, 0, 0, 0) \
+    header = struct.pack('<IIQIIQQIIIII', *header_fields) \
         + struct.pack('<Q', len(cpu_info)) + cpu_info
     header += b'\x00' * (-len(header) % 8)
     out = [b'\x00\x03\xaa\x55', header, b'\x00' * 4, b'stackshot_out_fl']
